@@ -476,7 +476,7 @@ func init() {
 			return 240
 		},
 		ChunkSize:   8,
-		Rule:        "each case runs a C01-style fault episode with a snapshot of (Persistence content, broker state) after every store mutation and broker transition; every distinct snapshot is a stop point: a fresh world is planted with it, AdoptSession runs (in-memory store, 1 in 8 on mqtt.FileSystem, half of those with the spool file of an interrupted Save left next to a record), the first connection's resend is compared byte for byte with the records pending at the stop (order, identifiers, PUBLISH/PUBREL stage), new publishes must continue the sequence, and the run must complete with every message delivered (exactly-once: once across all generations). The adopted run is itself snapshotted and stopped again (generation 2, thorough: 3) with old and new transfers pending; 1 in 3 cases has 2-4 publisher goroutines on both levels with scheduling noise at the entry of Persistence.Save (a slow Save overlaps others); 1 in 6 cases positions both sequences at the 14-bit wrap by really completing 16,38x publishes first. Non-trivial: adoption with >= 1 pending record; distinct by generation, pending counts per stage, wrap and broker handshake state.",
+		Rule:        "each case runs a C01-style fault episode with a snapshot of (Persistence content, broker state) after every store mutation and broker transition; every distinct snapshot is a stop point: a fresh world is planted with it, AdoptSession runs (in-memory store, 1 in 8 on mqtt.FileSystem, half of those with the spool file of an interrupted Save left next to a record), the first connection's resend is compared byte for byte with the records pending at the stop (order, identifiers, PUBLISH/PUBREL stage), new publishes must continue the sequence, and the run must complete with every message delivered (exactly-once: once across all generations). The adopted run is itself snapshotted and stopped again (generation 2, thorough: 3) with old and new transfers pending; 1 in 3 cases has 2-4 publisher goroutines on both levels with scheduling noise at the entry of Persistence.Save (a slow Save overlaps others); 1 in 4 cases ends with Close or Disconnect while a publish sits between its Save and its write (a call that reports an error must not leave a record to resume); 1 in 6 cases positions both sequences at the 14-bit wrap by really completing 16,38x publishes first. Non-trivial: adoption with >= 1 pending record; distinct by generation, pending counts per stage, wrap and broker handshake state.",
 		Assumptions: []string{"a stop of the in-memory store is atomic per operation; the FileSystem variant plants whole files (process-kill atomicity is C19's subject)", "the broker state is captured at the same instant as the store, i.e. every byte the client wrote before the stop reached the broker", "see C01"},
 		Run: func(c *run.Ctx) {
 			pp := pubParams{NPub: 2 + c.Rng.Intn(10), Levels: [][]int{{1}, {2}, {1, 2}, {1, 2}}[c.Rng.Intn(4)], Conc: 1, Budget: c.Rng.Intn(5), SettleP: c.Rng.Float64(), BigP: 0.02, Snaps: true}
@@ -488,6 +488,9 @@ func init() {
 				pp.Levels = []int{1, 2}
 				pp.SlowSaves = true
 			}
+			// the episode ends with Close or Disconnect while a publish sits between
+			// its Save and its write: accepted or not, the store must agree
+			pp.CloseMidPublish = c.Case%4 == 2
 			wrap := c.Case%6 == 0
 			if wrap {
 				pp.Prelude[1] = 0x4000 - 1 - c.Rng.Intn(6)
